@@ -300,7 +300,7 @@ pub static C16: SimpleProp = SimpleProp {
     id: "C16",
     level: "exploration",
     rule: "one evaluation = one call history (3-50 calls of write with sizes 0..2000 / write_all-style pieces / flush / get_output, then finish) (options: all three header modes, memory limit, allow_incomplete on a third of the runs) over a valid, corrupted (bit flip, truncation, splice, extension), over-long or size-lying input, an invalid header byte, or a multi-window stream whose sink fails while the window is handed over, continuing after the first Err and after the declared size is reached; latch rules are checked over the recorded (call, result, sink length) history; distinct by scenario hash; every case non-trivial (>= 3 calls)",
-    runs_quick: 100_000,
+    runs_quick: 300_000,
     runs_thorough: 30_000_000,
     both_profiles: false,
     assumptions: &[
